@@ -28,17 +28,19 @@ def _sim_configs(tier):
         yield cfg
 
 
-def _gen_clps(b, ds, perm=True):
-    """Generating clps of a dataset as an xarray with a permuted label order (selection must be by label)."""
+def _gen_clps(b, ds, perm=True, axis=None):
+    """Generating clps of a dataset as an xarray with a permuted label order (selection must be by label).
+    `axis`: the global coordinates in the order of the simulated data (position g of the clp belongs to position g)."""
     ref = harness.Ref(b)
     labels, _ = ref.dataset_columns(ds, 0)
     order = list(reversed(labels)) + ["unused"] if perm else list(labels)
     ng = len(ds.global_axis)
+    coords_g = np.asarray(ds.global_axis if axis is None else axis, dtype=float)
     a = np.empty((ng, len(order)), dtype=object if b.S.symbolic else float)
     for g in range(ng):
         for j, lab in enumerate(order):
             a[g, j] = b.S.named(f"gen_{ds.label}_{g}_{lab}")
-    return xr.DataArray(a, coords=[("spectral", np.asarray(ds.global_axis, dtype=float)), ("clp_label", order)]), labels
+    return xr.DataArray(a, coords=[("spectral", coords_g), ("clp_label", order)]), labels
 
 
 class Simulate(Contract):
@@ -57,14 +59,22 @@ class Simulate(Contract):
     agreement_runs = 0
 
     def cases(self, tier):
-        for cfg in _sim_configs(tier):
+        for k, cfg in enumerate(_sim_configs(tier)):
             yield {"cfg": cfg.name, "_cfg": cfg}
+            # the global axis need not be ascending (wavenumbers, pixel order): position g of the data, of the matrix and
+            # of the clp belong together
+            if tier == "quick" or k % 5 == 0:
+                yield {"cfg": cfg.name, "_cfg": cfg, "global_axis_descending": True}
 
     def case_id(self, case):
-        return f"cfg={case['cfg']}"
+        return f"cfg={case['cfg']}" + (",global_axis_descending" if case.get("global_axis_descending") else "")
 
     def build(self, S, case):
         return harness.build(S, case["_cfg"])
+
+    @staticmethod
+    def _axis(case, ds):
+        return list(reversed(ds.global_axis)) if case.get("global_axis_descending") else list(ds.global_axis)
 
     def call(self, S, case, b):
         from glotaran.simulation import simulate
@@ -73,14 +83,14 @@ class Simulate(Contract):
         out = {}
         ref = harness.Ref(b)
         for ds in b.cfg.datasets:
-            coords = {"time": np.asarray(ds.model_axis, dtype=float), "spectral": np.asarray(ds.global_axis, dtype=float)}
+            coords = {"time": np.asarray(ds.model_axis, dtype=float), "spectral": np.asarray(self._axis(case, ds), dtype=float)}
             if ds.global_megacomplexes:
                 if not set(ref.dataset_columns(ds, 0)[0]) <= set(ref.global_columns(ds)[0]):
                     out[ds.label] = None  # not simulatable: the global matrix must provide every clp label
                     continue
                 out[ds.label] = (simulate(b.model, ds.label, b.parameters, coords), None)
             else:
-                clp, labels = _gen_clps(b, ds)
+                clp, labels = _gen_clps(b, ds, axis=self._axis(case, ds))
                 out[ds.label] = (simulate(b.model, ds.label, b.parameters, coords, clp=clp), clp)
         return out
 
@@ -99,7 +109,7 @@ class Simulate(Contract):
                 continue
             sim, clp = out[ds.label]
             nm, ng = len(ds.model_axis), len(ds.global_axis)
-            yield f"coordinates[{ds.label}]", tuple(sim.data.dims) == ("time", "spectral") and [float(x) for x in sim.coords["time"].values] == list(ds.model_axis) and [float(x) for x in sim.coords["spectral"].values] == list(ds.global_axis)
+            yield f"coordinates[{ds.label}]", tuple(sim.data.dims) == ("time", "spectral") and [float(x) for x in sim.coords["time"].values] == list(ds.model_axis) and [float(x) for x in sim.coords["spectral"].values] == self._axis(case, ds)
             cells = []
             if ds.global_megacomplexes:
                 glabels, gcols = ref.global_columns(ds)
